@@ -98,7 +98,7 @@ func repoGoEnv(extra ...string) []string {
 // internal/registry into a loop over verifOrder(site, keys). Returns overlay entries.
 func instrumentMapRanges(work string) (map[string]string, int, error) {
 	cfg := &packages.Config{Mode: packages.NeedName | packages.NeedFiles | packages.NeedSyntax | packages.NeedTypes | packages.NeedTypesInfo | packages.NeedCompiledGoFiles,
-		Dir: "/repo", Env: repoGoEnv()}
+		Dir: repoRoot, Env: repoGoEnv()}
 	pkgs, err := packages.Load(cfg, "./internal/registry")
 	if err != nil || len(pkgs) != 1 || len(pkgs[0].Errors) > 0 {
 		return nil, 0, fmt.Errorf("loading internal/registry: %v %v", err, pkgs)
@@ -166,7 +166,7 @@ func instrumentMapRanges(work string) (map[string]string, int, error) {
 	// re-scan: no map range may be left
 	helper := filepath.Join(work, "verif_keys_test.go")
 	must(os.WriteFile(helper, []byte("//go:build verif\n\npackage registry\n\nfunc verifKeys[V any](m map[string]V) []string {\n\tks := make([]string, 0, len(m))\n\tfor k := range m {\n\t\tks = append(ks, k)\n\t}\n\treturn ks\n}\n"), 0o644))
-	overlay["/repo/internal/registry/zz_verif_keys_test.go"] = helper
+	overlay[repoRoot+"/internal/registry/zz_verif_keys_test.go"] = helper
 	return overlay, sites, nil
 }
 
@@ -185,7 +185,7 @@ func e2Run(work, test string, overlay map[string]string, env []string) (raw []by
 	must(err)
 	prog.Close()
 	cmd := exec.Command("go", "test", "-overlay="+ovf, "-tags", "verif", "-vet=off", "-count=1", "-timeout", "60m", "-run", "^"+test+"$", "-v", "./internal/registry")
-	cmd.Dir = "/repo"
+	cmd.Dir = repoRoot
 	cmd.Env = repoGoEnv(append(env, "E2_PROGRESS="+prog.Name())...)
 	var ob bytes.Buffer
 	cmd.Stdout, cmd.Stderr = &ob, &ob
@@ -281,7 +281,7 @@ func propIn(p string, l []string) bool {
 // e2Imports: BFS over AddImport sequences (C11, C19) + conformance of its predictions to
 // the real load path.
 func e2Imports(fx *Fixture, work string, rep *Report, prop string, depth int) {
-	overlay := map[string]string{"/repo/internal/registry/zz_verif_regbfs_test.go": e2TestFile}
+	overlay := map[string]string{repoRoot + "/internal/registry/zz_verif_regbfs_test.go": e2TestFile}
 	var preds []e2Prediction
 	e2Sharded(work, "TestVerifRegBFS", "imports", depth, overlay, rep, prop, func(raw []byte) {
 		var o e2Out
@@ -386,7 +386,7 @@ func e2Imports(fx *Fixture, work string, rep *Report, prop string, depth int) {
 
 // e2Vars: all AddVar sequences in one scope (C12).
 func e2Vars(work string, rep *Report, prop string, depth int) {
-	overlay := map[string]string{"/repo/internal/registry/zz_verif_regbfs_test.go": e2TestFile}
+	overlay := map[string]string{repoRoot + "/internal/registry/zz_verif_regbfs_test.go": e2TestFile}
 	e2Sharded(work, "TestVerifVarBFS", "vars", depth, overlay, rep, prop, func(raw []byte) {
 		var o e2Out
 		if err := json.Unmarshal(raw, &o); err != nil {
